@@ -2,7 +2,7 @@
 import re
 
 import anchors
-from core import BA, call_matches, callee_paths, op_local, op_place, op_const, const_int, place_fields, field_writes
+from core import BA, FAL, call_matches, callee_paths, op_local, op_place, op_const, const_int, place_fields, field_writes
 from rules import common, dirt
 from rules.C06 import backward_direct
 from rules.C01 import primary_target_rule
@@ -158,9 +158,11 @@ def run(ctx):
                 # (start_self) and never delegates - whether start_self is written out on that side or shared with
                 # the Dirty arm (`NeedTargets(t) if !no_oob => .., Dirty | NeedTargets(_) => start_self`)
                 rets = jba.returns()
+                # (over feasible paths: each side may first compute the value a later match dispatches on)
+                jfa = FAL.of(J)
                 ok = jba.edge_dominates((sw, nt), s2) and bool(su) and bool(ss) and bool(rets) \
-                    and jba.path([f2], rets, avoid=frozenset(su), incl=True) is None and jba.path([f2], ss, incl=True) is None \
-                    and jba.path([t2], rets, avoid=frozenset(ss), incl=True) is None and jba.path([t2], su, incl=True) is None
+                    and jfa.path([f2], rets, avoid=frozenset(su), incl=True) is None and jfa.path([f2], ss, incl=True) is None \
+                    and jfa.path([t2], rets, avoid=frozenset(ss), incl=True) is None and jfa.path([t2], su, incl=True) is None
             ctx.ob("R3.4", "%s|NeedTargets=>unlocked-unless-no_oob" % J.key, ok, where=ctx.where(J, sw),
                    detail="NeedTargets: no_oob => start_self, else start_deps_unlocked" if ok else "NeedTargets is not dispatched to redo-unlocked / start_self by no_oob")
     # redo-ifchange's verdict callback is a role (fn item today, possibly a closure handed to builder::run): use the
